@@ -2235,6 +2235,8 @@ def hyp_to_affine_dist(r):
     the Klein model.
 
     """
+    #r may be a list: 2 * r must not repeat it
+    r = np.asarray(r)
     return (np.exp(2 * r) - 1) / (1 + np.exp(2 * r))
 
 def _loxodromic_basis_change(dimension):
